@@ -151,7 +151,7 @@ Proof.
   - eapply invS_same; eauto.
   - destruct (Nat.leb (length (s_nodes s)) (s_pos s)).
     { unfold queue_tail. destruct (Nat.eqb (out_val s) 0); [eapply invS_same; eauto | auto]. }
-    destruct (throttle pl (out_val s)); [auto|].
+    destruct (throttle (out_val s)); [auto|].
     destruct (next_range (s_ranges s) (s_pos s)) as [p|].
     2:{ unfold queue_tail. match goal with |- invS (if ?c then _ else _) => destruct c end; eapply invS_same; eauto. }
     assert (HI0 : invS (set_pos s p)) by (eapply invS_same; eauto).
